@@ -2,7 +2,7 @@
 import z3
 
 from .isets import ISet, FULL, EMPTY
-from .sym import U, UAnd, toz3, is_sym, is_charvar, mk_charvar, _CHARVARS
+from .sym import U, UAnd, UOr, toz3, is_sym, is_charvar, mk_charvar, _CHARVARS
 
 
 class Raise(Exception):
@@ -88,6 +88,8 @@ class Ctx:
         self.notes = []
         self.input = None           # whatever the driver wants to remember (input objects)
         self.sat_checked = False
+        self.uclauses = []          # disjunctions of unary literals, kept out of the solver until needed
+        self.upushed = 0
 
     # -- variables
     def fresh_int(self, name='v'):
@@ -134,8 +136,60 @@ class Ctx:
         self.s.add(c)
         self.sat_checked = False
 
-    def sync(self):
-        for k, (v, s) in self.dom.items():
+    def propagate(self):
+        """unit propagation over the unary clauses"""
+        changed = True
+        while changed:
+            changed = False
+            keep = []
+            for cl in self.uclauses:
+                alive = [u for u in cl if not self.dom_of(u.v).disjoint(u.s)]
+                if not alive:
+                    raise Infeasible()
+                if any(self.dom_of(u.v).subset(u.s) for u in alive):
+                    if cl[-1] is not None and getattr(cl, 'pushed', False):
+                        pass
+                    continue
+                if len(alive) == 1:
+                    u = alive[0]
+                    self.dom[u.v.get_id()] = (u.v, self.dom_of(u.v).inter(u.s))
+                    changed = True
+                    continue
+                keep.append(alive if len(alive) != len(cl) else cl)
+            if len(keep) != len(self.uclauses) or changed:
+                self.uclauses = keep
+                self.upushed = 0       # clauses are re-pushed (weaker forms already in the solver stay valid)
+
+    def sync(self, extra=()):
+        need = set(self.relvars)
+        if extra:
+            seen = set()
+            for e in extra:
+                if isinstance(e, z3.ExprRef):
+                    expr_charvars(e, need, seen)
+        grew = True
+        pushed = getattr(self, '_pushed_clauses', None)
+        if pushed is None:
+            pushed = self._pushed_clauses = set()
+        while grew:
+            grew = False
+            for cl in self.uclauses:
+                key = tuple((u.v.get_id(), u.s.iv) for u in cl)
+                if key in pushed:
+                    continue
+                if any(u.v.get_id() in need for u in cl):
+                    pushed.add(key)
+                    self.s.add(z3.Or([u.z3() for u in cl]))
+                    for u in cl:
+                        if u.v.get_id() not in need:
+                            need.add(u.v.get_id())
+                            self.relvars.add(u.v.get_id())
+                            grew = True
+        for k in need:
+            ent = self.dom.get(k)
+            if ent is None:
+                continue
+            v, s = ent
             if self.synced.get(k) is not s:
                 if s.iv != FULL.iv:
                     self.s.add(U(v, s).z3())
@@ -143,11 +197,12 @@ class Ctx:
 
     def check(self, *extra):
         self.checks += 1
-        self.sync()
+        extra = [toz3(c) for c in extra]
+        self.sync(extra)
         if extra:
             self.s.push()
             for c in extra:
-                self.s.add(toz3(c))
+                self.s.add(c)
             r = self.s.check()
             self.s.pop()
         else:
@@ -163,6 +218,9 @@ class Ctx:
         """True iff the path condition implies c (unknown counts as not entailed)"""
         if isinstance(c, bool):
             return c
+        if isinstance(c, UOr):
+            if any(self.dom_of(u.v).subset(u.s) for u in c.items):
+                return True
         if isinstance(c, (U, UAnd)):
             items = c.items if isinstance(c, UAnd) else [c]
             if all(self.dom_of(u.v).subset(u.s) for u in items):
@@ -178,6 +236,8 @@ class Ctx:
             raise Infeasible()
         self.dom[k] = (u.v, s)
         self.sat_checked = False
+        if self.uclauses:
+            self.propagate()
 
     def assume(self, c):
         """add c to the path condition without branching"""
@@ -190,6 +250,9 @@ class Ctx:
         elif isinstance(c, UAnd):
             for u in c.items:
                 self.restrict(u)
+        elif isinstance(c, UOr):
+            self.uclauses.append(list(c.items))
+            self.propagate()
         else:
             self.add(c)
 
@@ -213,6 +276,8 @@ class Ctx:
     def branch(self, c):
         if isinstance(c, bool):
             return c
+        if isinstance(c, UOr):
+            return not self.branch(c.neg())
         if isinstance(c, (U, UAnd)):
             items = c.items if isinstance(c, UAnd) else [c]
             if not any(u.v.get_id() in self.relvars for u in items):
@@ -234,7 +299,7 @@ class Ctx:
                     elif not viol:
                         raise Infeasible()
                     else:
-                        self.add(z3.Or([U(u.v, self.dom_of(u.v).minus(u.s)).z3() for u in viol]))
+                        self.uclauses.append([U(u.v, u.s.compl()) for u in viol])
                 return d
             cz = c.z3()
         else:
@@ -277,7 +342,7 @@ class Ctx:
         if isinstance(c, int):
             return c
         v = m.eval(c, model_completion=False)
-        if z3.is_int_value(v):
+        if z3.is_int_value(v) and (not is_charvar(c) or self.dom_of(c).contains(v.as_long())):
             return v.as_long()
         # unconstrained in the solver: pick from the domain
         if is_charvar(c):
@@ -298,4 +363,8 @@ class Ctx:
         c.approx = self.approx
         c.approx_why = list(self.approx_why)
         c.hints = dict(self.hints)
+        c.uclauses = list(self.uclauses)
+        c._pushed_clauses = set(getattr(self, '_pushed_clauses', ()))
+        c.primary = self.primary
+        c.primary_params = self.primary_params
         return c
